@@ -534,19 +534,35 @@ impl Rule {
     pub fn validate(&self) -> crate::Result<bool> {
         let mut errors = vec![];
         for test in &self.true_positives {
-            if !(solver::solve(&self.detection, test.as_mapping().unwrap())) {
-                errors.push(format!(
-                    "failed to validate true positive check '{:?}'",
+            match test.as_mapping() {
+                Some(mapping) => {
+                    if !(solver::solve(&self.detection, mapping)) {
+                        errors.push(format!(
+                            "failed to validate true positive check '{:?}'",
+                            test
+                        ));
+                    }
+                }
+                None => errors.push(format!(
+                    "invalid true positive check, expected a mapping '{:?}'",
                     test
-                ));
+                )),
             }
         }
         for test in &self.true_negatives {
-            if solver::solve(&self.detection, test.as_mapping().unwrap()) {
-                errors.push(format!(
-                    "failed to validate true negative check '{:?}'",
+            match test.as_mapping() {
+                Some(mapping) => {
+                    if solver::solve(&self.detection, mapping) {
+                        errors.push(format!(
+                            "failed to validate true negative check '{:?}'",
+                            test
+                        ));
+                    }
+                }
+                None => errors.push(format!(
+                    "invalid true negative check, expected a mapping '{:?}'",
                     test
-                ));
+                )),
             }
         }
         if !errors.is_empty() {
